@@ -119,12 +119,21 @@ def step (w : List String) : String :=
       let N := pad16 S
       match decryptPackageSegs (N + Facts.C13.packageOffset) with
       | .err => "err"
-      | .panic => "PANIC"
       | .ok segs =>
         let good := match goodPrefix 0 segs (specSegs N) with
           | none => "full"
           | some g => if g < S then toString g else "full"
         s!"out={outLen segs} good={good}"
+    | none => "bad-op"
+  | ["agilen", n, _k] =>
+    match n.toNat? with
+    | some N =>
+      match decryptPackageSegs (N + Facts.C13.packageOffset) with
+      | .err => "err"
+      | .ok segs =>
+        let good := if N % 16 = 0 then "full" else toString (N / 16 * 16)
+        let same := if segs = specSegs N then 1 else 0
+        s!"out={outLen segs} good={good} spec={same}"
     | none => "bad-op"
   | ["u16", pw] =>
     match unhexS pw with
